@@ -1,6 +1,8 @@
 // extract-C01: fingerprints of the clauses of interp/cfg.go and the functions of interp/run.go that
 // Model/Cfg.lean transcribes: the per-kind wiring cases of the CFG builder for if/for/&&/||/
-// break/continue, wireChild, setFNext, and the execution loop runCfg with the branch closure.
+// break/continue, wireChild, setFNext, and the execution loop runCfg with the branch closure;
+// and, for Model/CfgSlots.lean, the slot-choosing switches of the assignStmt / binaryExpr / unaryExpr
+// cases, isArithmeticAction, and the closures assign, _return, neg, bitNot (run.go), add, quo, lower (op.go).
 package main
 
 import (
@@ -27,6 +29,71 @@ func clauseHash(cc *ast.CaseClause) string {
 	}
 	norm := strings.Join(strings.Fields(b.String()), " ")
 	return fmt.Sprintf("%x", sha256.Sum256([]byte(norm)))[:16]
+}
+
+func nodeHash(n ast.Node) string {
+	var b bytes.Buffer
+	if err := (&printer.Config{Mode: printer.RawFormat}).Fprint(&b, token.NewFileSet(), n); err != nil {
+		return "unrecognised: " + err.Error()
+	}
+	norm := strings.Join(strings.Fields(b.String()), " ")
+	return fmt.Sprintf("%x", sha256.Sum256([]byte(norm)))[:16]
+}
+
+func exprText(e ast.Expr) string {
+	var b bytes.Buffer
+	if err := (&printer.Config{Mode: printer.RawFormat}).Fprint(&b, token.NewFileSet(), e); err != nil {
+		return ""
+	}
+	return strings.Join(strings.Fields(b.String()), " ")
+}
+
+// slotSwitches: the tagless `switch { … }` statements of (*Interpreter).cfg that choose frame slots,
+// transcribed by Model/CfgSlots.lean. Each is found inside the post-order clause of the named node
+// kind by the text of its first case.
+var slotSwitches = []struct{ label, kind, firstCase string }{
+	// the skip-assign optimisations: x = a op b, x = f(…) write straight into x, the assign node becomes nop
+	{"assignStmt: skip-assign switch", "assignStmt", "n.action != aAssign"},
+	// findex of an operator node: destination of the enclosing assignment / return slot / own slot (sc.add)
+	{"binaryExpr: findex switch", "binaryExpr", "n.rval.IsValid()"},
+	{"unaryExpr: findex switch", "unaryExpr", "n.rval.IsValid()"},
+}
+
+func findSlotSwitch(cfg *ast.FuncDecl, kind, firstCase string) string {
+	found, n := "unrecognised: no `switch { case "+firstCase+": … }` in case "+kind, 0
+	ast.Inspect(cfg, func(x ast.Node) bool {
+		cc, ok := x.(*ast.CaseClause)
+		if !ok {
+			return true
+		}
+		named := false
+		for _, e := range cc.List {
+			if id, ok := e.(*ast.Ident); ok && id.Name == kind {
+				named = true
+			}
+		}
+		if !named {
+			return true
+		}
+		ast.Inspect(cc, func(y ast.Node) bool {
+			sw, ok := y.(*ast.SwitchStmt)
+			if !ok || sw.Tag != nil || sw.Init != nil || len(sw.Body.List) == 0 {
+				return true
+			}
+			first, ok := sw.Body.List[0].(*ast.CaseClause)
+			if !ok || len(first.List) != 1 || exprText(first.List[0]) != firstCase {
+				return true
+			}
+			n++
+			found = nodeHash(sw)
+			return true
+		})
+		return true
+	})
+	if n > 1 {
+		return fmt.Sprintf("unrecognised: %d candidate switches in case %s", n, kind)
+	}
+	return found
 }
 
 func main() {
@@ -75,6 +142,25 @@ func main() {
 		}
 		for _, fn := range []string{"runCfg", "branch", "nop"} {
 			rows = append(rows, [2]string{fn, common.FuncHash(fset2, f2, "", fn)})
+		}
+		// frame-slot level (Model/CfgSlots.lean): where cfg.go puts results, and the closures that do it
+		for _, sw := range slotSwitches {
+			h := "unrecognised: (*Interpreter).cfg not found"
+			if cfg != nil {
+				h = findSlotSwitch(cfg, sw.kind, sw.firstCase)
+			}
+			rows = append(rows, [2]string{sw.label, h})
+		}
+		rows = append(rows, [2]string{"isArithmeticAction", common.FuncHash(fset, f, "", "isArithmeticAction")})
+		for _, fn := range []string{"assign", "_return", "neg", "bitNot"} {
+			rows = append(rows, [2]string{"run.go " + fn, common.FuncHash(fset2, f2, "", fn)})
+		}
+		fset3, f3, err := common.ParseFile(repo, "interp/op.go")
+		if err != nil {
+			return "", err
+		}
+		for _, fn := range []string{"add", "quo", "lower"} {
+			rows = append(rows, [2]string{"op.go " + fn, common.FuncHash(fset3, f3, "", fn)})
 		}
 		var b strings.Builder
 		b.WriteString("namespace YaegiVerif.Generated.C01\n/-- fingerprints of the cfg.go clauses and run.go functions transcribed by Model/Cfg.lean -/\ndef sourceHashes : List (String × String) :=\n  [")
